@@ -38,6 +38,32 @@ func hNativeSnap(v any) (m mval, ok bool) {
 	return mval{kind: TypeUndefined}, false
 }
 
+// hNativeNilFree: no nil slice or nil map anywhere in a native tree (reflect.DeepEqual tells a nil slice from
+// an empty one, and encoding/json prints them differently, so "deep-equal" round trips must keep empty ones empty).
+func hNativeNilFree(v any) bool {
+	switch c := v.(type) {
+	case []any:
+		if c == nil {
+			return false
+		}
+		ok := true
+		for _, e := range c {
+			ok = ok && hNativeNilFree(e)
+		}
+		return ok
+	case map[string]any:
+		if c == nil {
+			return false
+		}
+		ok := true
+		for _, e := range c {
+			ok = ok && hNativeNilFree(e)
+		}
+		return ok
+	}
+	return true
+}
+
 func hGenC13() *hGen {
 	g := &hGen{scalars: []Type{TypeNil, TypeInt, TypeString}, width: 2, keyBytes: 1, strBytes: 1, strMin: 1}
 	if verifTier() > 0 {
@@ -92,6 +118,9 @@ func H_C13_from_native_roundtrip() {
 	bm, ok := hNativeSnap(back)
 	verifAssert(ok, "the round trip yields a plain native tree")
 	verifAssert(hExact(want, bm), "NewXFrom(native).NativeX reproduces the content of the input")
+	if hNativeNilFree(src) {
+		verifAssert(hNativeNilFree(back), "NewXFrom(native).NativeX is deep-equal to the input: empty (non-nil) slices and maps come back empty, not nil")
+	}
 	sm, _ := hNativeSnap(src)
 	verifAssert(hExact(want, sm), "NewXFrom does not modify its input")
 	verifReach("end")
